@@ -154,10 +154,26 @@ def run_translator():
     return rc == 0, out
 
 
+def write_coqproject():
+    """_CoqProject lists every .v file under coq/ (theories, proofs, Properties, extract)."""
+    files = []
+    for sub in ("theories", "proofs", "Properties", "extract"):
+        d = os.path.join(COQ, sub)
+        if os.path.isdir(d):
+            files += sorted(os.path.join(sub, f) for f in os.listdir(d) if f.endswith(".v"))
+    text = "-Q . NS\n" + "\n".join(files) + "\n"
+    p = os.path.join(COQ, "_CoqProject")
+    if not os.path.exists(p) or open(p).read() != text:
+        open(p, "w").write(text)
+        return True
+    return False
+
+
 def coq_make(targets, timeout=1500, jobs=16):
     """Full .vo build of the given targets (and their dependencies) through coq_makefile."""
     with Lock("coq"):
-        if not os.path.exists(os.path.join(COQ, "Makefile")) or \
+        changed = write_coqproject()
+        if changed or not os.path.exists(os.path.join(COQ, "Makefile")) or \
                 os.path.getmtime(os.path.join(COQ, "Makefile")) < os.path.getmtime(os.path.join(COQ, "_CoqProject")):
             sh("coq_makefile -f _CoqProject -o Makefile", cwd=COQ, check=True)
         rc, out = sh(["make", "-j%d" % jobs] + targets, cwd=COQ, timeout=timeout)
@@ -265,17 +281,31 @@ def property_theorems(prop):
 
 
 def build_nsmodel():
-    """Extracts the executable model and compiles the OCaml driver."""
+    """Extracts the executable models and compiles the OCaml driver.
+
+    Layout under coq/extract/: Extract*.v each write one Model*.ml(i) (via
+    `Extraction "extract/ModelX.ml" ...`); mode_*.ml are hand-written driver fragments, each
+    opening the Model module it needs and registering itself with `Modes.register`;
+    modes.ml (registry) is compiled before them and main.ml last."""
     with Lock("coq"):
         d = os.path.join(BUILD, "nsmodel")
         os.makedirs(d, exist_ok=True)
         ex = os.path.join(COQ, "extract")
-        rc, out = sh(["make", "-j16", "extract/Extract.vo"], cwd=COQ, timeout=1500)
+        if write_coqproject():
+            sh("coq_makefile -f _CoqProject -o Makefile", cwd=COQ, check=True)
+        vos = ["extract/" + f[:-2] + ".vo" for f in sorted(os.listdir(ex)) if f.endswith(".v")]
+        rc, out = sh(["make", "-j16"] + vos, cwd=COQ, timeout=1500)
         if rc != 0:
             return False, out
-        srcs = sorted(f for f in os.listdir(ex) if f.endswith(".ml") or f.endswith(".mli"))
+        models = sorted(f[:-3] for f in os.listdir(ex) if f.startswith("Model") and f.endswith(".ml"))
+        modes = sorted(f for f in os.listdir(ex) if f.startswith("mode_") and f.endswith(".ml"))
+        order = []
+        for m in models:
+            order += [m + ".mli", m + ".ml"]
+        order += ["modes.ml"] + modes + ["main.ml"]
         stamp = hashlib.sha256()
-        for f in srcs:
+        for f in order:
+            stamp.update(f.encode())
             stamp.update(open(os.path.join(ex, f), "rb").read())
         sp = os.path.join(d, "stamp")
         if os.path.exists(NSMODEL) and os.path.exists(sp) and open(sp).read() == stamp.hexdigest():
@@ -283,11 +313,10 @@ def build_nsmodel():
         for f in os.listdir(d):
             if f.endswith((".ml", ".mli", ".cmi", ".cmx", ".o")):
                 os.remove(os.path.join(d, f))
-        for f in srcs:
+        for f in order:
             shutil.copy(os.path.join(ex, f), os.path.join(d, f))
-        rc, out = sh("ocamlfind ocamlopt -O2 -w -a -package str -linkpkg Model.mli Model.ml driver.ml -o nsmodel 2>&1 || "
-                     "ocamlfind ocamlopt -w -a -package str -linkpkg Model.mli Model.ml driver.ml -o nsmodel",
-                     cwd=d, timeout=900)
+        cmd = "ocamlfind ocamlopt -O2 -w -a -package str -linkpkg %s -o nsmodel" % " ".join(order)
+        rc, out = sh(cmd + " 2>&1 || " + cmd.replace(" -O2", ""), cwd=d, timeout=900)
         if rc != 0:
             return False, out
         open(sp, "w").write(stamp.hexdigest())
